@@ -109,8 +109,8 @@ class TU:
                 # out-of-line definitions refer back to the in-class declaration
                 if n.get('previousDecl'):
                     self.qual.setdefault(n['previousDecl'], q)
-        if k in ('CXXRecordDecl', 'ClassTemplateSpecializationDecl') and n.get('completeDefinition'):
-            self.records[q] = n
+        if k in ('CXXRecordDecl', 'ClassTemplateSpecializationDecl') and n.get('completeDefinition') and name:
+            self.records[q] = n       # (anonymous nested structs have no name of their own: they must not replace their parent)
         if k in ('FunctionDecl', 'CXXMethodDecl', 'CXXConstructorDecl', 'CXXDestructorDecl', 'CXXConversionDecl'):
             if any(c.get('kind') in ('CompoundStmt', 'CXXTryStmt') for c in n.get('inner', [])):
                 self.funcs.setdefault(q, []).append(n)
